@@ -253,6 +253,12 @@ def m_x_Attribute(self, st, n, k):
                 self.axiom_sets.append('regex')
             return self.with_raises(st, [(z3.Not(self.is_regex(base.z)), 'AttributeError')],
                                     lambda st: k(st, VBytes(T.rx_pattern(T.Val.oval(base.z)))))
+        if isinstance(base, VDyn) and n.attr in ('sync_before_pack', 'sync_after_unpack'):
+            # a hook of a descriptor object taken as a VALUE (obj.sync_before_pack): the bound method of that object,
+            # AttributeError when the object has no such method
+            has = z3.Function('has_method', T.Val, T.S, T.B)(base.z, z3.StringVal(n.attr))
+            bm = z3.Function('bound_method', T.Val, T.S, T.I)(base.z, z3.StringVal(n.attr))
+            return self.with_raises(st, [(z3.Not(has), 'AttributeError')], lambda st: k(st, VDyn(T.Val.VF(bm))))
         if isinstance(base, VDyn) and n.attr not in DYN_METHODS:
             owners = [c for c in self.classes if n.attr in self.classes[c].get('attrs', {})]
             roots = [c for c in owners if not any(o != c and self.is_subclass(c, o) for o in owners)]
